@@ -1,4 +1,4 @@
-import Nstd.Seq.LemmasArr
+import Nstd.Seq.LemmasArr2
 /-
   Property C03, the tie by TRANSLATION for `Array`: `Nstd.Generated.SeqArr` holds the bodies of the member functions of
   include/nstd/Array.hpp that contain the loops, as tools/gen_seq.py reads them off the CURRENT header on every run.
@@ -12,57 +12,14 @@ open Nstd.Seq.AM
 
 variable [ArrCfg]
 
+/-- The translated body of `Array::reserve(usize)` from the allocation statement on — allocate `_capacity` raw cells,
+    copy-construct every element into the new block and destroy the source (the growth loop), `delete[]` the old block,
+    re-point `_begin.item` / `_end.item` — under the model's guard and capacity rule is the cell-level model's `reserve`
+    (`moveLoop`), for every memory representing a model state, every requested size, every mask; fuel `size() + 1`
+    suffices.  Both fault in the same cases (an element that is not constructed, a cell outside the new block). -/
 theorem gen_reserve (M : Mem) (A : Arr) (r : RArr) (h : Rep M A r) (size fuel : Nat) (hf : r.n < fuel) :
-    Sim M A (SeqArr.reserve fuel M A size) (Raw.reserve r size) := by
-  obtain ⟨hcap, hrep⟩ := h
-  unfold SeqArr.reserve Raw.reserve
-  cases hc : r.cells with
-  | none =>
-    rw [hc] at hrep
-    obtain ⟨hb, he, hn⟩ := hrep
-    simp only [hb, hcap, Option.isNone_none, Option.isSome_none, true_and]
-    by_cases hg : size > r.cap ∨ size > 0
-    · simp only [hg, if_true, Bool.false_eq_true, if_false, Sim, allocPtr, alloc]
-      refine ⟨⟨rfl, ?_⟩, by simp, ?_, ?_⟩
-      · simp only []
-        exact ⟨M.brk, by simp, rfl, rfl, by simp [upd_same]⟩
-      · intro b hb _
-        simp [upd_ne _ _ _ _ (Nat.ne_of_lt hb)]
-      · rintro b ⟨i, hi⟩
-        simp only [Option.some.injEq, Prod.mk.injEq] at hi
-        exact Or.inr (by omega)
-    · simp only [hg, if_false]
-      exact sim_refl M A r ⟨hcap, by rw [hc]; exact ⟨hb, he, hn⟩⟩
-  | some old =>
-    rw [hc] at hrep
-    obtain ⟨b, hbk, hb, he, hblk⟩ := hrep
-    simp only [hb, he, hcap, Option.isNone_some, Option.isSome_some, Bool.false_eq_true, false_and, or_false, if_true]
-    by_cases hg : size > r.cap
-    · simp only [hg, if_true, allocPtr, alloc]
-      have hne : b ≠ M.brk := Nat.ne_of_lt hbk
-      have key := reserve_loop1_spec
-        { begin := some (b, 0), end_ := some (b, r.n), cap := size ||| ArrCfg.mask } size (some (M.brk, 0)) b M.brk r.n hne old
-        r.n 0 fuel
-        { blocks := upd M.blocks M.brk (some (List.replicate (size ||| ArrCfg.mask) none)), brk := M.brk + 1 } old
-        (List.replicate (size ||| ArrCfg.mask) none) (by omega) hf
-        (by simp [upd_ne _ _ _ _ hne, hblk]) (by simp [upd_same]) (fun _ _ => rfl)
-      cases hm : moveLoop old (List.replicate (size ||| ArrCfg.mask) none) 0 r.n with
-      | none => simp only [key.1 hm, Sim]
-      | some new' =>
-        obtain ⟨M', e1, e2, e3, e4, e5⟩ := key.2 new' hm
-        simp only [e1, del, e3, and_self, if_true, Sim]
-        refine ⟨⟨rfl, ?_⟩, by simp [e4], ?_, ?_⟩
-        · simp only []
-          exact ⟨M.brk, by simp [e4], rfl, rfl, by simp [upd_ne _ _ _ _ (Ne.symm hne), e2]⟩
-        · intro b' hb' hown
-          have h1 : b' ≠ b := fun e => hown ⟨0, by rw [e]; exact hb⟩
-          have h2 : b' ≠ M.brk := Nat.ne_of_lt hb'
-          simp [upd_ne _ _ _ _ h1, e5 b' h1 h2, upd_ne _ _ _ _ h2]
-        · rintro b' ⟨i, hi⟩
-          simp only [Option.some.injEq, Prod.mk.injEq] at hi
-          exact Or.inr (by omega)
-    · simp only [hg, if_false]
-      exact sim_refl M A r ⟨hcap, by rw [hc]; exact ⟨b, hbk, hb, he, hblk⟩⟩
+    Sim M A (SeqArr.reserve fuel M A size) (Raw.reserve r size) :=
+  reserve_sim M A r h size fuel hf
 
 /-- The translated `Array::remove(usize index)` — size test, the shifting assignment loop `*dest = *(++pos)` up to the
     decremented `_end.item`, the destructor call on the last element — is the cell-level model's `removeAt` (nothing happens
